@@ -91,3 +91,8 @@ PROP["manifest"]["level_text"] += (
     "grows only by w1Quiet, by (cache(k), v). C06Glue.converges_concrete now carries the hypothesis qlog = [] (converges_concrete_mod is "
     "the general form). The handler of the LTS rejects an unknown mode at the mode switch (h4, after HasTarget and the ACL check) and "
     "the send timer is armed around the Send of the sync marker, as the repaired code does.")
+# bC05L: the SEQ/LTS simulation extended to ONCE / POLL, poll, eof (Props/C05Refine.lean); run forms of the C05 LTS theorems (Props/C05LRun.lean)
+from c05refine_part import MODULES as _C05R_MODULES, THEOREMS as _C05R_THEOREMS, LEVEL_TEXT as _C05R_TEXT
+PROP["modules"] += _C05R_MODULES
+PROP["theorems"] += _C05R_THEOREMS
+PROP["manifest"]["level_text"] += _C05R_TEXT
